@@ -146,6 +146,19 @@ func genC05(b *strings.Builder) {
 		}
 		return out
 	}
+	// tar.go Tar(): does it look at the source again after the root entry was encoded (buf.Next())
+	// and refuse what is left, or does it return nil whatever remains?
+	tarFn := findFunc("Tar")
+	rejects := false
+	ast.Inspect(tarFn.Body, func(n ast.Node) bool {
+		if ce, ok := n.(*ast.CallExpr); ok {
+			if se, ok := ce.Fun.(*ast.SelectorExpr); ok && se.Sel.Name == "Next" {
+				rejects = true
+			}
+		}
+		return true
+	})
+	fmt.Fprintf(b, "(* tar.go Tar: entries left in the source after the root entry are refused *)\nDefinition c05_tar_rejects_leftover : bool := %v.\n", rejects)
 	fmt.Fprintf(b, "(* localfs_other.go LocalFS.Next *)\nDefinition c05_rdev_major (rdev : N) : N := %s.\n", bitsToCoq(find("major"), ren))
 	fmt.Fprintf(b, "Definition c05_rdev_minor (rdev : N) : N := %s.\n", bitsToCoq(find("minor"), ren))
 }
